@@ -895,15 +895,15 @@ func sortCases(cs []*tcase) {
 
 func run(r *ev.Run, tier, replay string) {
 	seed := ev.Seed()
-	srv, err := fixture.StartChild(fixture.ChildConfig{})
-	if err != nil {
-		r.Machinery("server: %v", err)
-		return
-	}
-	sh := &shared{r: r, srv: srv, counts: map[string]int64{}}
-	defer func() { sh.srv.Stop() }()
 
 	if replay != "" {
+		srv, err := fixture.StartChild(fixture.ChildConfig{})
+		if err != nil {
+			r.Machinery("server: %v", err)
+			return
+		}
+		sh := &shared{r: r, srv: srv, counts: map[string]int64{}}
+		defer func() { sh.srv.Stop() }()
 		b, err := os.ReadFile(replay)
 		if err != nil {
 			r.Machinery("replay: %v", err)
@@ -953,6 +953,8 @@ func run(r *ev.Run, tier, replay string) {
 	var tlcWall float64
 	var samples []interface{}
 	perBox := map[string]int{}
+	counts := map[string]int64{}
+	crashed := false
 	for bi, box := range boxes {
 		wg.Add(1)
 		go func(bi int, box string) {
@@ -970,6 +972,23 @@ func run(r *ev.Run, tier, replay string) {
 				return
 			}
 			sortCases(out.cases)
+			// every box has a server process of its own: the boxes run truly in parallel and a crash
+			// is attributed to the box that caused it
+			srv, err := fixture.StartChild(fixture.ChildConfig{})
+			if err != nil {
+				r.Machinery("server for box %s: %v", box, err)
+				return
+			}
+			sh := &shared{r: r, srv: srv, counts: map[string]int64{}}
+			defer func() {
+				sh.srv.Stop()
+				mu.Lock()
+				for k, v := range sh.counts {
+					counts[k] += v
+				}
+				crashed = crashed || sh.crashed
+				mu.Unlock()
+			}()
 			// a few written-out cases per box
 			pick := rand.New(rand.NewSource(seed + int64(bi)))
 			var smp []interface{}
@@ -1021,9 +1040,9 @@ func run(r *ev.Run, tier, replay string) {
 	r.Set("transitions", gen)
 	r.Set("tlc_wall_s", tlcWall)
 	r.Set("cases_per_box", perBox)
-	r.Set("traces_validated_against_impl", sh.counts["cases"])
-	r.Set("executions_per_command", map[string]int64{"SEARCH": sh.counts["SEARCH"], "UID SEARCH": sh.counts["UIDSEARCH"]})
-	r.Set("exhaustive", sh.counts["cases"] == total && !sh.crashed)
+	r.Set("traces_validated_against_impl", counts["cases"])
+	r.Set("executions_per_command", map[string]int64{"SEARCH": counts["SEARCH"], "UID SEARCH": counts["UIDSEARCH"]})
+	r.Set("exhaustive", counts["cases"] == total && !crashed)
 	r.Set("rule", "one case = (mailbox content box, juxtaposed key trees) enumerated exhaustively by TLC from GluonSearch (all 38 key kinds; depth <= 2 quick, <= 3 thorough) with the expected ascending sequence numbers and UIDs; every case is executed with SEARCH and UID SEARCH in the session holding the view, the result line compared as a sequence (order and duplicates matter) and UID SEARCH compared with the UIDs of SEARCH's messages; non-trivial = expected BAD or a proper non-empty subset of the view; distinct = distinct (command, box, key tree)")
 	r.Assumptions = []string{
 		"the internal date of a message is the UTC calendar date of what FETCH INTERNALDATE reports (checked after building every box); the date of the Date: header is the one written in it",
